@@ -23,6 +23,18 @@ ASA_TGT = {"acls": {"inside_in": [ACE("permit", "ip", T("host", "h1"), T("host",
                                   ACE("permit", "tcp80", T("any", ""), T("host", "h3"))]},
            "groups": {}, "binds": [{"acl": "inside_in", "if": "inside", "dir": "in"}],
            "routes": [{"fam": "4", "if": "inside", "dst": "n12", "gw": "gB"}], "ifs": []}
+# VPN part of the ASA scenario: the kinds of commands for which the tool tolerates device warnings
+# (access-list, crypto map, tunnel-group) all occur in the change list
+ASA_VPN = """access-list crypto-inside-1 extended permit ip any4 10.0.2.0 255.255.255.0
+crypto ipsec ikev1 transform-set Trans1 esp-3des esp-md5-hmac
+crypto map crypto-inside 1 match address crypto-inside-1
+crypto map crypto-inside 1 set peer 193.155.130.20
+crypto map crypto-inside 1 set ikev1 transform-set Trans1
+crypto map crypto-inside interface inside
+tunnel-group 193.155.130.20 type ipsec-l2l
+tunnel-group 193.155.130.20 ipsec-attributes
+ peer-id-validate nocheck
+"""
 IOS_DEV = {"acls": {"E0_in": [ACE("permit", "ip", T("host", "h1"), T("host", "h3")),
                               ACE("permit", "tcp80", T("any", ""), T("host", "h3"))]},
            "intfs": {"E0": {"vrf": "", "in": "E0_in", "out": ""}},
@@ -99,7 +111,8 @@ MODEL = {"asa": "ASA", "ios": "IOS", "linux": "Linux", "panos": "PAN-OS", "nsx":
 def device_and_target(typ, changes, foreign=False):
     """(device config text(s) for the simulator, Netspoc code text)"""
     if typ == "asa":
-        return {"config": asa.render(ASA_DEV, True)}, asa.render(ASA_TGT if changes else ASA_DEV, False)
+        return ({"config": asa.render(ASA_DEV, True) + ("" if changes else ASA_VPN)},
+                asa.render(ASA_TGT if changes else ASA_DEV, False) + ASA_VPN)
     if typ == "ios":
         return {"config": ios.render(IOS_DEV, True)}, ios.render(IOS_TGT if changes else IOS_DEV, False)
     if typ == "linux":
